@@ -3,6 +3,9 @@ import z3
 from . import cond
 
 
+SYNTACTIC = [0]
+
+
 def equivalent(run1, run2, nvars):
     """run = list of (dumped path condition, outcome).  For every path of run1, the part of its cell that is
     not covered by run2 paths with the *same* outcome must be empty (decided by z3).  Returns list of
@@ -18,7 +21,17 @@ def equivalent(run1, run2, nvars):
         s.add(cond.domain_z3(k))
     diffs = []
     queries = 0
+    try:
+        exact = set((pc, out) for pc, out in run2)
+    except TypeError:
+        exact = set()
     for i, (pc, out) in enumerate(run1):
+        try:
+            if (pc, out) in exact:      # the identical cell with the identical outcome: trivially covered
+                SYNTACTIC[0] += 1
+                continue
+        except TypeError:
+            pass
         c = cond.load(pc)
         same = by_out.get(out, [])
         s.push()
